@@ -222,6 +222,15 @@ class Walk:
         base = e
         while isinstance(base, ast.Subscript):
             base = base.value
+        # a store / mutating call that goes THROUGH an object held in self.X (self.target.cache[i] = .., self.proposal.mean += ..)
+        root, path = base, []
+        while isinstance(root, (ast.Attribute, ast.Subscript)) and not _is_self_attr(root):
+            if isinstance(root, ast.Attribute):
+                path.append(root.attr)
+            root = root.value
+        if _is_self_attr(root) and path:
+            self.emit("extw", "%s.%s" % (root.attr, ".".join(reversed(path))), cond)
+            self.emit("inplace", root.attr, cond)
         if _is_self_attr(base):
             self.emit("inplace", base.attr, cond)
         elif isinstance(base, ast.Name):
@@ -356,6 +365,15 @@ class Walk:
             a = self.alias_target(t.value, fr)
             if a:
                 self.emit("inplace", a, cond)
+            root, path = t, []
+            while isinstance(root, (ast.Attribute, ast.Subscript)) and not _is_self_attr(root):
+                if isinstance(root, ast.Attribute):
+                    path.append(root.attr)
+                root = root.value
+            if _is_self_attr(root):
+                self.emit("extw", "%s.%s" % (root.attr, ".".join(reversed(path))), cond)   # self.X.attr = ...
+            elif isinstance(root, ast.Name) and root.id in fr["alias"]:
+                self.emit("extw", "%s.%s" % (fr["alias"][root.id], ".".join(reversed(path))), cond)
         else:
             raise FootprintError("unsupported assignment target %s" % ast.unparse(t))
 
@@ -683,6 +701,9 @@ def extract_experimental(repo):
         lv, _ = _events(world, cname, ["sample", "warmup"])
         internal = set(f["state"]) | set(f["hist"]) | set(f["step_w"]) | set(f["tune_w"])
         f["external"] = _uniq(n for k, n, _ in ev + tv if k == "ext" and n not in internal)
+        # stores / mutating calls that go through a helper object (self.target.x = .., self.proposal.cache[i] = ..) anywhere
+        # in step, tune, the hooks, initialize or the sample / warmup drivers
+        f["external_writes"] = _uniq(n for k, n, _ in ev + tv + iv + lv if k == "extw")
         sv, _ = _events(world, cname, ["sample"])
         f["sample_r"] = _uniq(n for k, n, _ in sv if k in ("r", "append", "inplace"))
         f["warmup_r"] = _uniq(n for k, n, _ in lv if k in ("r", "append", "inplace"))
@@ -950,6 +971,9 @@ def render(exp, leg, excuses, stores=None):
             n += 1
         L.append("Definition %s_external : list String.string := %s.  (* helper objects whose internals are outside the analysis *)"
                  % (c, _cl(f.get("external", []))))
+        L.append("Lemma %s_no_writes_through_helpers : legacy_alias_ok %s = %s. Proof. vm_compute. reflexivity. Qed."
+                 % (c, _cl(f.get("external_writes", [])), b(not f.get("external_writes"))))
+        n += 1
         if reinit_ok(f):
             L.append("Lemma %s_reinit_frame : forall (V : Type) (initS : store V -> store V),\n"
                      "  (forall s a, ~ In a (f_init_w %s_facts) -> initS s a = s a) ->\n"
